@@ -296,5 +296,6 @@ def run(tier, seed, replay=None):
         "samples": [{"source": srcs[1], "reported": [(fn["name"], fn["complexity"]) for fn in an[1].get("funcs", [])]}],
         "traces_validated_against_impl": len(srcs) - model_diffs,
         "distribution": hist,
+        "whole_graph_comparisons": dict(cfgeng.GRAPH_STATS),
     })
     return res.finish("proof")
